@@ -28,6 +28,10 @@ Funs == {"new", "conj", "abs_sqr", "abs", "arg", "zero", "one",
 (* pyth_plus  g(z)^2 + h(z)^2 = 1          pyth_minus  g(z)^2 - h(z)^2 = 1             *)
 (* sqrt_sq    sqrt(z)^2 = z                                                            *)
 (* pow_def    pow(z, w) = exp(w ln z)      powf_def  powf(z, x) = exp(x ln z)          *)
+(* powf_near / pow_near: the same two definitions for exponents k + d, d = +-(1 ulp, 1e-15, 1e-12, 1e-9, 4e-9,   *)
+(*            1e-8, 1e-7, 1e-6) around every integer k in -3..3 and around +-0.5, +-1.5 (pow: also with an       *)
+(*            imaginary part +-1e-9), on bases with |ln z| of order 1: z^w is smooth in w, no exponent may be   *)
+(*            replaced by a neighbour                                                                          *)
 (* log_def    log(z, b) = ln z / ln b                                                  *)
 (* polar_def  polar(r, t) = r cos t + i r sin t   (real cos, sin)                      *)
 (* polar_rt   polar(abs z, arg z) = z                                                  *)
@@ -93,7 +97,9 @@ Rels == <<
   Rel("sqrt_sq", "sqrt_sq", "sqrt", "-", "-", "all", 8),
   Rel("pow_def", "pow_def", "pow", "exp", "ln", "all", 64),
   Rel("powf_def", "powf_def", "powf", "exp", "ln", "all", 16),
-  Rel("log_def", "log_def", "log", "ln", "-", "all", 4),
+  Rel("powf_near", "powf_near", "powf", "exp", "ln", "pownear", 16),
+  Rel("pow_near", "pow_near", "pow", "exp", "ln", "pownear", 32),
+  Rel("log_def", "log_def", "log", "ln", "-", "all", 8),
   Rel("polar_def", "polar_def", "polar", "-", "-", "all", 2),
   Rel("polar_rt", "polar_rt", "arg", "polar", "abs", "all", 4),
   Rel("sincos_pyth", "pyth_plus", "sin", "sin", "cos", "all", 16),
@@ -106,13 +112,19 @@ Rels == <<
   Rel("one_def", "one_def", "one", "new", "-", "all", 1) >>
 NRel == Len(Rels)
 RelSet == {Rels[i] : i \in 1..NRel}
-Kinds == {"series", "axis", "quot", "recip", "rinv", "pyth_plus", "pyth_minus", "sqrt_sq", "pow_def", "powf_def",
+Kinds == {"series", "axis", "quot", "recip", "rinv", "pyth_plus", "pyth_minus", "sqrt_sq", "pow_def", "powf_def", "powf_near", "pow_near",
           "log_def", "polar_def", "polar_rt", "abs_def", "abs_sqr_def", "conj_def", "new_def", "zero_def", "one_def"}
-Doms == {"all", "real", "realpos", "real_lt1", "real_gt1"}
+Doms == {"all", "real", "realpos", "real_lt1", "real_gt1", "pownear"}
 \* the functions of the crate a relation relies on besides f (its definition is in terms of them)
 Uses(r) == {r.g, r.h} \ {"-", r.f}
 \* a relation DEFINES f when it pins f down given its Uses (the axis reductions and Pythagorean identities do not)
-Defining(r) == r.kind \notin {"axis", "pyth_plus", "pyth_minus"}
+Defining(r) == r.kind \notin {"axis", "pyth_plus", "pyth_minus", "powf_near", "pow_near"}
+
+\* functions that decompose their argument into modulus and phase (directly, or through sqrt / ln of it or of its
+\* reciprocal): the harness evaluates all functions of the catalogue back to back on the same z and must make every
+\* ordered pair of these adjacent (and each of them twice in a row) at least once per pass over the obligations
+Decomp == {"sqrt", "ln", "log", "pow", "powf", "arg", "abs", "polar", "asin", "acos", "atan", "asinh", "acosh", "atanh",
+           "asec", "acsc", "acot", "asech", "acsch", "acoth"}
 
 (* ---------------- pairings ---------------- *)
 Inverse == {"ln", "asin", "acos", "atan", "asec", "acsc", "acot", "asinh", "acosh", "atanh", "asech", "acsch", "acoth"}
@@ -196,6 +208,7 @@ InDom(dom, g) == CASE dom = "all" -> TRUE
                    [] dom = "realpos" -> OnReal(g) /\ XPos(g)
                    [] dom = "real_lt1" -> OnReal(g) /\ XAbsLt1(g)
                    [] dom = "real_gt1" -> OnReal(g) /\ XGt1(g)
+                   [] dom = "pownear" -> g.kind = "sector" /\ g.m \in {1, 5}      \* moduli 0.05..0.95 and 1.2..9: |ln z| of order 1
 \* next to the poles only the quotient / reciprocal definitions of the family that has its poles and zeros on that
 \* axis are obligations (every one of them: a pole of tan is a zero of cot), and on the real axis the reductions
 \* of tan, sin, cos to the real functions
